@@ -14,11 +14,18 @@ EXTENDS Integers, Sequences, FiniteSets, TLC
 
 CONSTANTS NMsgs,     \* messages the sender sends (ids 1..NMsgs, in this order)
           MaxOps,    \* stash calls per handled message
-          Buffers    \* subset of BOOLEAN: actor spawned WithStashing() or not
+          Buffers,   \* subset of BOOLEAN: actor spawned WithStashing() or not
+          Kinds      \* main-mailbox implementations the actor is spawned with ("unbounded" = default
+                     \* intrusive UnboundedMailbox; "bounded", "ring" = NonBlockingBoundedMailbox, "prio" =
+                     \* UnboundedStablePriorityMailbox with a constant priority, "segmented"): all FIFO for one
+                     \* sender, so the kind changes no transition - it is a dimension of the replay, because
+                     \* the non-intrusive mailboxes RECYCLE the previously dequeued context on the next
+                     \* Dequeue, which is only safe because stash() enqueues a clone
 
 VARIABLES mbox,      \* main mailbox: Seq([id, tag, rel])
           stash,     \* stash mailbox: Seq([id, tag, rel])
           buffer,    \* stashState # nil
+          kind,      \* mailbox implementation (never changes)
           cur,       \* entry being handled, or None
           nops,      \* stash calls made by the current handler
           held,      \* the current handler has already stashed its message (a message is stashed at most once per delivery)
@@ -28,17 +35,18 @@ VARIABLES mbox,      \* main mailbox: Seq([id, tag, rel])
           dlog,      \* ghost: entries in delivery order
           last       \* output only: last step and its observable result
 
-vars == <<mbox, stash, buffer, cur, nops, held, sent, ntag, nrel, dlog, last>>
-core == <<mbox, stash, buffer, cur, nops, held, sent, ntag, nrel, dlog>>
+vars == <<mbox, stash, buffer, kind, cur, nops, held, sent, ntag, nrel, dlog, last>>
+core == <<mbox, stash, buffer, kind, cur, nops, held, sent, ntag, nrel, dlog>>
 
 None == [id |-> 0, tag |-> 0, rel |-> 0]
-Out(op, id, err) == [op |-> op, id |-> id, err |-> err, buffer |-> buffer]
+Out(op, id, err) == [op |-> op, id |-> id, err |-> err, buffer |-> buffer, kind |-> kind]
 
 Init == /\ mbox = <<>> /\ stash = <<>>
         /\ buffer \in Buffers
+        /\ kind \in Kinds /\ (~buffer => kind = "unbounded")   \* without a stash buffer the kind is irrelevant
         /\ cur = None /\ nops = 0 /\ held = FALSE /\ sent = 0 /\ ntag = 0 /\ nrel = 0
         /\ dlog = <<>>
-        /\ last = [op |-> "Init", id |-> 0, err |-> "", buffer |-> buffer]
+        /\ last = [op |-> "Init", id |-> 0, err |-> "", buffer |-> buffer, kind |-> kind]
 
 \* ---- Tell/doReceive by the sender: enqueue at the tail of the main mailbox
 Send ==
@@ -46,7 +54,7 @@ Send ==
   /\ sent' = sent + 1
   /\ mbox' = Append(mbox, [id |-> sent + 1, tag |-> 0, rel |-> 0])
   /\ last' = Out("Send", sent + 1, "")
-  /\ UNCHANGED <<stash, buffer, cur, nops, held, ntag, nrel, dlog>>
+  /\ UNCHANGED <<stash, buffer, kind, cur, nops, held, ntag, nrel, dlog>>
 
 \* ---- runTurn: the previous handler has returned; dequeue the head, call the handler
 Deliver ==
@@ -56,7 +64,7 @@ Deliver ==
   /\ nops' = 0 /\ held' = FALSE
   /\ dlog' = Append(dlog, Head(mbox))
   /\ last' = Out("Deliver", Head(mbox).id, "")
-  /\ UNCHANGED <<stash, buffer, sent, ntag, nrel>>
+  /\ UNCHANGED <<stash, buffer, kind, sent, ntag, nrel>>
 
 InHandler == cur # None /\ nops < MaxOps
 
@@ -70,7 +78,7 @@ StashOp ==
      ELSE /\ stash' = Append(stash, [id |-> cur.id, tag |-> ntag + 1, rel |-> 0])
           /\ ntag' = ntag + 1
           /\ last' = Out("Stash", cur.id, "")
-  /\ UNCHANGED <<mbox, buffer, cur, sent, nrel, dlog>>
+  /\ UNCHANGED <<mbox, buffer, kind, cur, sent, nrel, dlog>>
 
 \* ---- ReceiveContext.Unstash -> pid.unstash(): oldest entry re-enters the mailbox
 UnstashOp ==
@@ -86,7 +94,7 @@ UnstashOp ==
           /\ mbox' = Append(mbox, [Head(stash) EXCEPT !.rel = nrel + 1])
           /\ nrel' = nrel + 1
           /\ last' = Out("Unstash", Head(stash).id, "")
-  /\ UNCHANGED <<buffer, cur, held, sent, ntag, dlog>>
+  /\ UNCHANGED <<buffer, kind, cur, held, sent, ntag, dlog>>
 
 \* ---- ReceiveContext.UnstashAll -> pid.unstashAll(): for !IsEmpty { Dequeue; doReceive(clone) }
 UnstashAllOp ==
@@ -99,7 +107,7 @@ UnstashAllOp ==
           /\ mbox' = mbox \o [i \in 1..Len(stash) |-> [stash[i] EXCEPT !.rel = nrel + 1]]
           /\ nrel' = nrel + 1
           /\ last' = Out("UnstashAll", Len(stash), "")
-  /\ UNCHANGED <<buffer, cur, held, sent, ntag, dlog>>
+  /\ UNCHANGED <<buffer, kind, cur, held, sent, ntag, dlog>>
 
 Next == Send \/ Deliver \/ StashOp \/ UnstashOp \/ UnstashAllOp
 
